@@ -24,32 +24,54 @@ from tools.gen import pygen
 LEVEL = "proof"
 MANIFEST = dict(
     category="proof",
-    text="Lean 4 theorems on (1) a model of the generated Python wrapper: for all parameter lists with trailing defaults and "
-         "all positional/keyword splits accepted by the keyword parser, if the supplied parameters are the first "
-         "(#positional+#keyword) ones the library receives exactly the supplied values and its own defaults for the rest "
-         "(partial: the full statement is refuted by the keyword-skipping witness f(i=1,k=3); it is proved in full for functions "
-         "with at most one defaulted parameter, and for functions with a default-argument switch the prefix condition is "
-         "proved necessary as well as sufficient); no wrapper or overload dispatcher ever ends in SystemError, wrongly typed / "
-         "surplus / unknown-keyword calls end in TypeError, a call matching no overload ends in TypeError; the returned object "
-         "is None / the single item / a tuple with the result first and the intent(out|inout) parameters in declaration order; "
-         "(2) tables regenerated from the working tree on every run (every py_statements entry for C and C++, every typemap's "
-         "PY_* fields): one address per parse unit, goto-fail/fail-label consistency, every acquired resource released on the "
-         "success and failure paths or handed to the returned object, build-unit arity = build arguments, PY_ctor arity; "
-         "(3) a model of the list-mode conversion helpers: every item converted in order, the first rejected item gives "
-         "TypeError with its index and leaves nothing allocated. Ties on every run: emitted format string, keyword list, case "
-         "call lists, dispatch windows, PyDict_Size operand, return order and Py_BuildValue format/argument count are extracted "
-         "from the generated C and compared with the model; compiled extensions are driven with every split and compared with "
-         "the model and an implementation-only oracle; the helper C text is compiled with counting allocators and compared "
-         "with the helper model.",
+    text="Lean 4 theorems, all for unbounded parameter lists / argument values / positional-keyword splits. "
+         "(1) Dispatch model of a generated wrapper (Props/C03.lean): call_equiv_prefix_partial - for parameter lists with "
+         "trailing defaults and every split the keyword parser accepts, if the supplied parameters are the first "
+         "#positional+#keyword ones the library receives exactly the supplied values, out/implied arguments in place and "
+         "its own defaults for the rest; `_partial` because the full statement is false on the current code "
+         "(kw_skip_witness, call_equiv_full_is_false: f(i=1,k=3) passes an unparsed j and drops k; open finding "
+         "kw-skip-default:). The gap is characterised exactly: call_equiv_iff_prefix - with a default-argument switch the "
+         "call is delivered as specified IF AND ONLY IF the supplied set is such a prefix (every keyword-skipping call is "
+         "wrong); call_equiv_single_default - full equivalence, no prefix hypothesis, for functions with at most one "
+         "defaulted parameter; structCtor_call_equiv - full equivalence for every split for the constructor generated for a "
+         "struct wrapped as a class (no switch, initialised variables). Errors: wrapper_never_systemError, wrapper_outcome, "
+         "wrapper_badtype/too_many/unknown_kw_typeError, structCtor_never_systemError, dispatchFrom_sound (first in-window "
+         "overload not raising TypeError answers), dispatch_no_match_typeError, dispatch_never_systemError, and the witnesses "
+         "for the removed PyDict_Size(args). Return shape: buildTuples_eq, return_shape, return_none_iff, "
+         "return_function_tuple/single, outItems_order. "
+         "(2) Table theorems (Props/C03Tables.lean, decide +kernel over Gen/PyStmts.lean regenerated on every run from all "
+         "103 py_statements entries for C and C++ and 27 typemaps): one address per parse unit, goto-fail/fail-label "
+         "consistency, every acquired resource released on success and failure paths or handed on, object_created entries "
+         "create the object, parse-unit / build-unit / PY_ctor arities, every unit has a value class. "
+         "(3) List-helper model (Props/C03Lists.lean): every item converted in order, the first rejected item gives TypeError "
+         "with its index and leaves nothing allocated, fill/broadcast, to_PyList round trip, char** items. "
+         "Ties on every run: emitted format string, keyword list, case call lists (count and referenced parameter), switch / "
+         "SH_nargs presence, PyDict_Size operand, dispatch windows and callee order, return shape, returned items, "
+         "Py_BuildValue format and argument count, struct-constructor format / field assignments / initialised variables are "
+         "extracted from the generated C of generated descriptions and compared with the model; compiled extensions are "
+         "driven with every positional/keyword split and every call is compared with the model (library trace, exception "
+         "class); the helper C text is compiled with counting allocators and compared with the helper model.",
     design="3 C03",
-    note="Trusted: Lean kernel; the abstraction of CPython's vgetargskeywords; the translator's pattern table (66 line patterns: "
-         "which template lines acquire / release / hand on a resource), its C-API arity table and the value classes per format "
-         "unit; g++/gcc and CPython 3.12 for the compiled oracles. Not modelled: reference counting inside CPython, numpy "
-         "conversions, getter/setter clauses of struct members, the generated struct-as-class constructor, py_implied "
-         "expressions (an implied argument is an opaque value), values outside the C type's range (OverflowError); conversion "
-         "failures of list arguments are predicted by composing the dispatch model with the helper model in the harness.",
+    note="Oracle (implementation only, no model): compiled C++ and C extensions of a fixed library, a grid library (every "
+         "shape n parameters x first default position, in overload sets, as functions and methods) and seeded random "
+         "libraries; kinds: scalars, bool, char*/std::string, enum, class and struct (as class) arguments and results, "
+         "list-mode arrays with implied sizes, char**, std::vector in/out/result, multi-extent +dimension out arguments and "
+         "pointer results, const/non-const pointer overloads, overloads distinguished by list/vector element type, defaulted "
+         "and overloaded constructors, the generated struct constructor; every supplied subset x every split, wrongly typed / "
+         "surplus / unknown / duplicate / missing arguments, bad list items at every index; expectations computed from the "
+         "declaration (trace of received values incl. the library's defaults, result-then-out tuple, sizes from the dimension "
+         "expressions); per-call allocation balance; sequences of state-changing method calls over constructed and "
+         "library-owned objects (identity / aliasing). Trusted: Lean kernel; the abstraction of CPython's vgetargskeywords; "
+         "the translator's pattern table (which template lines acquire / release / hand on), its C-API arity table and the "
+         "value classes per format unit; that a list argument's post-parse conversion can be folded into the unit's accepted "
+         "classes (the helper model decides which sequences a converter accepts); g++/gcc and CPython 3.12. Not modelled: "
+         "CPython reference counts, numpy conversions, getter/setter clauses of struct members, py_implied expressions "
+         "(opaque value), integers outside the C type's range (OverflowError), the extension-type object protocol (covered "
+         "by the sequence oracle only). Generator exclusions, each registered elsewhere: locals of std::string/vector/struct "
+         "intent(out) or vector arguments together with default arguments, struct/vector results with non-scalar arguments "
+         "(generated file does not compile, C05).",
     technique="Lean 4 proof by induction over parameter / item lists + decide +kernel over regenerated tables + differential "
-              "correspondence on emitted text, compiled extensions and compiled helpers",
+              "correspondence on emitted text, compiled extensions and compiled helpers + compiled-extension oracle",
 )
 MODULES = ["ShroudVerif.Props.C03", "ShroudVerif.Props.C03Tables", "ShroudVerif.Props.C03Lists"]
 THEOREMS = {
@@ -82,6 +104,8 @@ THEOREMS = {
         "Shroud.PyDispatch.call_equiv_iff_prefix",
         "Shroud.PyDispatch.kw_skip_witness",
         "Shroud.PyDispatch.call_equiv_full_is_false",
+        "Shroud.PyDispatch.structCtor_call_equiv",
+        "Shroud.PyDispatch.structCtor_never_systemError",
         "Shroud.PyDispatch.wrapper_never_systemError",
         "Shroud.PyDispatch.wrapper_outcome",
         "Shroud.PyDispatch.wrapper_badtype_typeError",
@@ -468,7 +492,31 @@ def tie_emitted(ctx, drv, lib, calls, texts, dis, info):
             if not node.wrap.python or node.ast.is_dtor():
                 continue
             if node._generated == "struct_as_class_ctor":
-                continue        # the generated struct constructor (all fields optional) is not modelled
+                params = node_params(node, intern, clsids)
+                info.setdefault((cname, "__init__"), []).append((node, params))
+                ctx.count(1)
+                where = "%s:%s (struct constructor)" % (lib.name, node.declgen)
+                body = split_functions(texts).get(node.fmtdict.PY_name_impl)
+                if body is None:
+                    dis.append({"where": where, "what": "no emitted function " + str(node.fmtdict.PY_name_impl)})
+                    continue
+                g = parse_gen(drv.run(["sgen " + enc_params(params)])[0])
+                ex = extract_function(body, node, cname)
+                rev_ = {v: k for k, v in intern.ids.items()}
+                m_kw = [] if g["kw"] == "-" else [rev_[int(x)] for x in g["kw"].split(",")]
+                if ex["fmt"] != dec_codes(g["fmt"]) or ex["kw"] != m_kw:
+                    dis.append({"where": where, "what": "struct constructor format / kwlist", "emitted": [ex["fmt"], ex["kw"]],
+                                "model": [dec_codes(g["fmt"]), m_kw]})
+                if ex["switch"] or ex["has_nargs"]:
+                    dis.append({"where": where, "what": "struct constructor has an argument-count switch"})
+                assigned = re.findall(r"SH_obj->(\w+) = (\w+);", body)
+                if assigned != [(n_, n_) for n_ in m_kw]:
+                    dis.append({"where": where, "what": "field assignments", "emitted": assigned, "model": m_kw})
+                inits = [n_ for n_ in m_kw if not re.search(r"\b%s = 0;" % re.escape(n_), body)]
+                if inits:
+                    dis.append({"where": where, "what": "field variables without an initial value", "emitted": inits})
+                ctx.nontrivial("structctor:" + where)
+                continue
             params = node_params(node, intern, clsids)
             key = (cname, "__init__" if node.ast.is_ctor() else node.ast.name)
             info.setdefault(key, []).append((node, params))
@@ -706,7 +754,7 @@ def drive(d, lib, calls):
 # ---------------------------------------------------------------- python values for parameter kinds
 def good_value(p, idx, alt=0):
     b = p.base()
-    if b in ("int", "long", "short", "size_t", "uint"):
+    if b in ("int", "long", "short", "size_t", "uint", "cintp"):
         return ["int", 3 + idx + 11 * alt]
     if b in ("double",):
         return ["float", 1.5 + idx + alt]
@@ -751,7 +799,7 @@ def bad_value(p):
 def py_accepts(p, v):
     """would a Python/C++ programmer call this value well typed for the parameter?"""
     b, t = p.base(), v[0]
-    if b in pygen.INTLIKE:
+    if b in pygen.INTLIKE or b == "cintp":
         return t in ("int", "bool")
     if b in pygen.FLOATLIKE:
         return t in ("int", "float", "bool")
@@ -826,8 +874,13 @@ def expectation(f, S, flag):
     """(trace, encoded return value) the library contract prescribes for overload f with supplied S"""
     toks = []
     rets = []
+    if f.is_struct:
+        vals = [raw(S[i]) if i in S else p.default for i, p in enumerate(f.vis)]
+        return "", {"pt": [int(vals[0]), float(vals[1])]}
     if f.name == "getflag" and f.cls:
         rets.append({"i": flag})
+    elif f.name == "addflag" and f.cls:
+        rets.append({"i": flag + int(raw(S[0]))})
     elif f.result in ("clsptr_res", "clsref_res"):
         rets.append({"o": f.rescls, "flag": pygen.RESULT_VALUE[f.result]})
     elif not f.ctor and f.result != "void":
@@ -1103,6 +1156,8 @@ def check_library(ctx, drv, lib, thorough, r, dis_gen, dis_call, extra_calls=())
             c["vals"] = vals
             if nodes is None:
                 reqs.append("bad")
+            elif len(nodes) == 1 and nodes[0][0]._generated == "struct_as_class_ctor":
+                reqs.append("scall %s %s %s" % (enc_params(nodes[0][1]), pos, kw))
             elif len(nodes) == 1:
                 reqs.append("call kwds %s %s %s" % (enc_params(nodes[0][1]), pos, kw))
             else:
@@ -1190,6 +1245,14 @@ def check_library(ctx, drv, lib, thorough, r, dis_gen, dis_call, extra_calls=())
                 continue
             f = group[int(who)]
             recv = [] if outcome[3:] == "-" else outcome[3:].split(",")
+            if f.is_struct:
+                got = (res["value"] or {}).get("pt")
+                want = []
+                for p, a in zip(f.params, recv):
+                    want.append(p.default if a == "d" else raw(c["vals"][int(a.split(".")[1])]))
+                if got is None or len(want) != 2 or int(want[0]) != got[0] or abs(float(want[1]) - got[1]) > 1e-9:
+                    dis_call.append({"call": lib.name + ":" + sig, "model": mline, "impl": res, "why": "struct fields"})
+                continue
             tr = res["trace"]
             m = re.search(re.escape(f.label) + r"(?:\[(-?\d+)\])?\((.*)\);$", tr)
             bad = None
@@ -1225,6 +1288,8 @@ def check_library(ctx, drv, lib, thorough, r, dis_gen, dis_call, extra_calls=())
             if bad:
                 dis_call.append({"call": lib.name + ":" + sig, "model": mline, "impl": res, "why": bad})
         ctx.note("calls:" + lib.name, len(allcalls))
+        if lib.name == "fixlib":
+            sequence_oracle(ctx, lib, d, r, thorough)
     finally:
         common.rmtree(d)
 
@@ -1275,6 +1340,158 @@ TEXT_LIBS = [
 DIST = {"overloads": {}, "arities": {}, "kinds": {}, "heads": {}, "dims": {}}
 
 
+# ====================================================================== object identity / state sequences
+SEQ_DRIVER = r'''
+import ctypes, json, sys
+d, modname, seqfile, outfile = sys.argv[1:5]
+sys.path.insert(0, d)
+M = __import__(modname)
+L = ctypes.CDLL(M.__file__)
+L.subj_trace.restype = ctypes.c_char_p
+def enc(v):
+    if v is None: return None
+    if isinstance(v, bool): return {"b": v}
+    if isinstance(v, int): return {"i": v}
+    if isinstance(v, tuple): return {"t": [enc(x) for x in v]}
+    if hasattr(v, "getflag"): return {"o": type(v).__name__, "flag": v.getflag()}
+    return {"o": type(v).__name__}
+out = []
+for seq in json.load(open(seqfile)):
+    env, res = {}, []
+    for st in seq:
+        def arg(a):
+            return env[a[1]] if a[0] == "var" else a[1]
+        L.subj_reset()
+        try:
+            if st["op"] == "new":
+                r = env[st["var"]] = getattr(M, st["cls"])(*[arg(a) for a in st["args"]])
+            elif st["op"] == "meth":
+                r = getattr(env[st["var"]], st["name"])(*[arg(a) for a in st["args"]])
+            elif st["op"] == "func":
+                r = getattr(M, st["name"])(*[arg(a) for a in st["args"]])
+                if st.get("out"): env[st["out"]] = r
+            elif st["op"] == "del":
+                r = None; del env[st["var"]]
+            trace = L.subj_trace().decode("latin-1")
+            res.append({"r": "ok", "value": enc(r), "trace": trace, "same": {a + "," + b: env[a] is env[b] for a in env for b in env if a < b}})
+        except BaseException as e:
+            res.append({"r": "exc", "type": type(e).__name__, "msg": str(e)[:200], "trace": L.subj_trace().decode("latin-1")})
+    out.append(res)
+json.dump(out, open(outfile, "w"))
+'''
+
+
+def gen_sequences(r, cls, nseq, length):
+    """programs over a few Python variables: construct, mutate (setflag/addflag), read back (getflag), pass to the
+    library (usecls), obtain the library's own objects (getobj/getref return the same C++ object every time)"""
+    seqs = []
+    for _ in range(nseq):
+        seq, live = [], []
+        for k in range(length):
+            ops = ["new"] if not live else ["new", "add", "add", "set", "get", "use", "lib", "lib", "del"]
+            op = r.choice(ops)
+            if op == "new" and len(live) < 4:
+                v = "v%d" % k
+                seq.append({"op": "new", "var": v, "cls": cls, "args": [["int", r.randrange(1, 50)]]})
+                live.append(v)
+            elif op == "add":
+                seq.append({"op": "meth", "var": r.choice(live), "name": "addflag", "args": [["int", r.randrange(1, 9)]]})
+            elif op == "set":
+                seq.append({"op": "meth", "var": r.choice(live), "name": "setflag", "args": [["int", r.randrange(100, 200)]]})
+            elif op == "get":
+                seq.append({"op": "meth", "var": r.choice(live), "name": "getflag", "args": []})
+            elif op == "use":
+                seq.append({"op": "func", "name": "usecls", "args": [["var", r.choice(live)], ["int", k]]})
+            elif op == "lib" and len(live) < 5:
+                v = "v%d" % k
+                if r.random() < 0.5:
+                    seq.append({"op": "func", "name": "getobj", "args": [], "out": v})
+                else:
+                    seq.append({"op": "func", "name": "getref", "args": [["int", k]], "out": v})
+                live.append(v)
+            elif op == "del" and len(live) > 1:
+                v = r.choice(live)
+                live.remove(v)
+                seq.append({"op": "del", "var": v})
+        for v in live:
+            seq.append({"op": "meth", "var": v, "name": "getflag", "args": []})
+        seqs.append(seq)
+    return seqs
+
+
+def sequence_oracle(ctx, lib, d, r, thorough):
+    """Classes behave as Python types whose methods act on the underlying C++ object: every step's result and
+    library trace is predicted by a simulation that keeps one flag per C++ object; two Python variables refer to
+    the same C++ object only when the library returned the same pointer (getobj / getref)."""
+    cls = "Cls0"
+    seqs = gen_sequences(r, cls, 60 if thorough else 20, 12)
+    sf, of = os.path.join(d, "seqs.json"), os.path.join(d, "seqres.json")
+    json.dump(seqs, open(sf, "w"))
+    open(os.path.join(d, "seqdriver.py"), "w").write(SEQ_DRIVER)
+    p = subprocess.run([sys.executable, os.path.join(d, "seqdriver.py"), d, lib.name, sf, of], stdout=subprocess.PIPE,
+                       stderr=subprocess.PIPE, text=True, timeout=600)
+    replay_base = {"yaml": lib.yaml(), "header": lib.header(), "subject": lib.subject_source(), "language": lib.language,
+                   "library": lib.name}
+    if p.returncode != 0 or not os.path.exists(of):
+        ctx.fail("crash:%s:sequence" % lib.name, "object sequences crashed the interpreter (rc=%s): %s" % (p.returncode, p.stderr[-300:]),
+                 dict(replay_base, sequences=seqs[:3]))
+        return
+    results = json.load(open(of))
+    statics = {"getobj": ["static:getobj", pygen.RESULT_VALUE["clsptr_res"]], "getref": ["static:getref", pygen.RESULT_VALUE["clsref_res"]]}
+    flags = {statics["getobj"][0]: statics["getobj"][1], statics["getref"][0]: statics["getref"][1]}   # persist across sequences
+    nobj = 0
+    for si, (seq, res) in enumerate(zip(seqs, results)):
+        ident = {}
+        for k, (st, got) in enumerate(zip(seq, res)):
+            ctx.count(1)
+            want_trace, want_value = "", None
+            if st["op"] == "new":
+                nobj += 1
+                ident[st["var"]] = "obj%d" % nobj
+                flags[ident[st["var"]]] = st["args"][0][1]
+                want_trace = "%s#1(%d);" % (cls, st["args"][0][1])
+                want_value = {"o": cls, "flag": st["args"][0][1]}
+            elif st["op"] == "meth":
+                o = ident[st["var"]]
+                if st["name"] == "addflag":
+                    want_trace = "%s.addflag[%d](%d);" % (cls, flags[o], st["args"][0][1])
+                    flags[o] += st["args"][0][1]
+                    want_value = {"i": flags[o]}
+                elif st["name"] == "setflag":
+                    want_trace = "%s.setflag[%d](%d);" % (cls, flags[o], st["args"][0][1])
+                    flags[o] = st["args"][0][1]
+                else:
+                    want_trace = "%s.getflag[%d]();" % (cls, flags[o])
+                    want_value = {"i": flags[o]}
+            elif st["op"] == "func" and st["name"] == "usecls":
+                o = ident[st["args"][0][1]]
+                want_trace = "usecls(%d,%d);" % (flags[o], st["args"][1][1])
+                want_value = {"i": 7}
+            elif st["op"] == "func":
+                o = statics[st["name"]][0]
+                ident[st["out"]] = o
+                want_trace = "%s(%s);" % (st["name"], "" if st["name"] == "getobj" else st["args"][0][1])
+                want_value = {"o": cls, "flag": flags[o]}
+            elif st["op"] == "del":
+                del ident[st["var"]]
+            ok_ = got["r"] == "ok" and got["trace"] == want_trace and got["value"] == want_value
+            if ok_ and st["op"] != "del":
+                # distinct Python objects; they share a C++ object only if the library handed out the same pointer
+                for pair, same in got["same"].items():
+                    a, b = pair.split(",")
+                    if same:
+                        ok_ = False
+            if not ok_:
+                ctx.fail("object-state:%s:%s" % (lib.name, st.get("name", st["op"])),
+                         "sequence %d step %d %s: library must see %s and Python %s; got %s" % (
+                             si, k, json.dumps(st), want_trace, json.dumps(want_value), json.dumps(got)[:300]),
+                         dict(replay_base, sequence=seq, step=k))
+                break
+            if st["op"] in ("meth", "func"):
+                ctx.nontrivial("seq:%d:%d" % (si, k))
+    ctx.note("object_sequences (steps over constructed and library-owned objects)", sum(len(s_) for s_ in seqs))
+
+
 def load_corpus():
     """corpus lines: JSON {"key": [cls|null, name], "pos": [...], "kw": {...}|null} run against the fixed library"""
     extra = []
@@ -1307,17 +1524,23 @@ def run(ctx):
     r = common.rng("c03")
     ctx.cov["trusted_base"] = [
         "Lean 4.33.0 kernel; axioms within {propext, Classical.choice, Quot.sound}",
-        "hand-written model Model/PyDispatch.lean of Wrapp.wrap_function / multi_dispatch and of CPython's keyword parser",
-        "accepted value classes per format unit (i,l,h,n: int/bool; d,f: int/float/bool; s: str; O!: exact type) are harness data",
-        "g++ 12 / CPython 3.12 headers for the compiled extensions; the generated subject library's trace",
+        "hand-written models Model/PyDispatch.lean (wrap_function / multi_dispatch / struct constructor / CPython keyword parser), "
+        "Model/PyList.lean (list-mode helpers), Model/PyTables.lean (format grammars, row predicates)",
+        "tools/extract_pystmts.py: line pattern table (acquire / release / hand-on classification), C-API arity table, value classes per format unit",
+        "folding of a list argument's post-parse conversion into the accepted classes of its unit (decided by the helper model)",
+        "g++ / gcc 12 and CPython 3.12 headers for the compiled extensions and helpers; the generated subject library's trace; counting malloc/calloc/strdup/free",
     ]
-    ctx.cov["rule"] = ("one evaluation = one wrapped function whose emitted text was compared with the model, or one Python call "
-                       "on a compiled extension judged by the oracle and compared with the model; non-trivial = functions with a "
-                       "default-argument switch / tuple return / overload dispatch, and calls that use a keyword or omit a default.")
+    ctx.cov["rule"] = ("one evaluation = one wrapped function (or struct constructor, or overload dispatcher) whose emitted text was compared "
+                       "with the model, one Python call on a compiled extension judged by the oracle and compared with the model, one "
+                       "helper call on the compiled helper text, or one step of an object sequence; non-trivial = functions with a "
+                       "default-argument switch / tuple return / overload dispatch, calls that use a keyword, omit a default or pass a "
+                       "list, helper calls that fail or convert more than one item, method / library-object steps of a sequence.")
     ctx.assumptions += [
-        "theorems are about the Lean model; the model is validated against wrapp.py on generated numpy-free descriptions only",
+        "theorems are about the Lean models; the models are validated against wrapp.py / whelpers.py on generated numpy-free descriptions only",
+        "table theorems hold for the tables as classified by the translator's pattern table (an unclassifiable line fails the run)",
         "argument values are inside the range of their C type (out-of-range integers raise OverflowError in CPython)",
         "first-match semantics for overloads: the first declared overload that accepts the call is the expected one",
+        "a str passed where a list of strings is expected is outside the generated calls (CPython iterates it character by character)",
     ]
     if not drv.available():
         ctx.tie_broken("pydispatch-driver", "driver not built")
